@@ -14,8 +14,8 @@ def plan(ctx):
     quick = set()
     for rate in ("high", "low"):
         ms = [m for m in dec if m["rate"] == rate]
-        quick.add(rnd.choice([m for m in ms if not m["complete"]])["name"])
-        quick.add(rnd.choice([m for m in ms if not m["complete"] and m["om"] == 0])["name"])
+        small = [m for m in ms if m["k"] + m["r"] == 4]
+        quick.add(rnd.choice([m for m in small if not m["complete"]])["name"])
         quick.add(rnd.choice([m for m in ms if m["complete"]])["name"])
     for m in fam:
         R = "High" if m["rate"] == "high" else "Low"
@@ -24,7 +24,7 @@ def plan(ctx):
                               f"{R}RateEncoder<NullEngine> ({m['k']},{m['r']}), 3 consecutive rounds on one object: recovery(i) for UNBOUNDED symbolic i is Some (len = shard_bytes) iff i < recovery_count; iterator yields recovery(0..r) (pointer-equal) then None x3; after drop the next round's adds and encode succeed",
                               encodes=["EncoderResult::recovery/recovery_iter/drop", "Recovery::next", "EncoderWork::recovery/reset_received", "RateEncoder::encode"],
                               bounds="3 rounds, 2-byte shards, unwind 66", flags=FULL, timeout=1500, mem_gb=8, symbolic="index (usize, unbounded), shard bytes",
-                              tiers=("quick", "thorough") if (m["k"], m["r"]) in ((2, 2), (3, 1), (1, 3)) else ("thorough",)))
+                              tiers=("quick", "thorough") if (m["rate"], m["k"], m["r"]) in (("high", 2, 2), ("low", 1, 3)) else ("thorough",)))
         else:
             hs.append(Harness(f"gen::c12g::{m['name']}", "C12",
                               f"{R}RateDecoder<NullEngine> ({m['k']},{m['r']}), given originals {m['om']:b} / recovery {m['rm']:b}, 2 rounds: restored_original(i) for UNBOUNDED symbolic i is Some iff i < original_count and not given; iterator = ascending (i, restored_original(i)) then None x3; after drop the same adds succeed again",
